@@ -73,6 +73,15 @@ pub fn payload_of_class(r: &mut Rng, class: usize, n: usize) -> Vec<u8> {
             v
         }
         3 => (0..n).map(|i| (i % 251) as u8).collect(),
+        5 => {
+            // the bytes with the longest codes of the built-in table: the compressed form of a long payload
+            // of these does not fit the writers' 2048-byte scratch buffer (they must then send it plain)
+            let h = &libtw2_huffman::instances::TEEWORLDS;
+            let mut by_len: Vec<(usize, u8)> = (0..=255u8).map(|b| (h.compressed_len(&[b; 64]), b)).collect();
+            by_len.sort();
+            let worst: Vec<u8> = by_len[256 - 12..].iter().map(|x| x.1).collect();
+            (0..n).map(|_| *r.pick(&worst)).collect()
+        }
         _ => r.bytes(n),
     }
 }
